@@ -548,6 +548,21 @@ class Authorization(Endpoint):
                 request, error="unauthorized_client", error_description="unknown client"
             )
 
+        # A request object passed by value (or pushed) must use an algorithm permitted for
+        # the client, just like one fetched through request_uri.
+        _ver_request = request.get(verified_claim_name("request"))
+        if _ver_request is not None and getattr(_ver_request, "jws_header", None):
+            try:
+                self.allowed_request_algorithms(
+                    client_id, context, _ver_request.jws_header.get("alg", "RS256"), "sign"
+                )
+            except ValueError:
+                return self.authentication_error_response(
+                    request,
+                    error="invalid_request",
+                    error_description="Request object signing algorithm not allowed",
+                )
+
         # Is the asked for response_type among those that are permitted
         if not self.verify_response_type(request, _cinfo):
             return self.authentication_error_response(
